@@ -480,7 +480,8 @@ sp_zgemv(char *trans, doublecomplex alpha, SuperMatrix *A, doublecomplex *x,
     
     /* Test the input parameters */
     info = 0;
-    if ( !notran && strncmp(trans, "T", 1)!=0 && strncmp(trans, "C", 1)!=0)
+    if ( !notran && strncmp(trans, "T", 1)!=0 && strncmp(trans, "t", 1)!=0 &&
+	 strncmp(trans, "C", 1)!=0 && strncmp(trans, "c", 1)!=0 )
         info = 1;
     else if ( A->nrow < 0 || A->ncol < 0 ) info = 3;
     else if (incx == 0) info = 5;
